@@ -30,6 +30,10 @@ def gen_case(rng):
 UNOBSERVED = []   # pool stages that ran but whose queue could not be read off download_pool_files()
 
 
+PROWS = []        # the unpack + parse + queue step of every recorded run (Unpack.v / PoolQueue.v / Deb822.v)
+PSKIPPED = []
+
+
 def pool_row(rows, jc, scn, base, files, plan, res, what, mrows=None):
     """one real run -> a Converge.pool_run case per repository whose pool stage ran"""
     faults = R.realise_plan(plan or {}, files)
@@ -55,6 +59,11 @@ def pool_row(rows, jc, scn, base, files, plan, res, what, mrows=None):
             mt, mw = R.meta_tie_row(o, files[url], faults.get(url, {}), pub)
             mrows.append((dict(jc, run=what), mt, mw, {"queued": len(o["meta_queue"]), "published": pub is not None,
                                                        "counted": bool(o.get("meta_err") or o.get("meta_miss"))}))
+        pr, pm = R.parsed_tie_row(o)
+        if pr is None:
+            PSKIPPED.append((what, pm))
+        else:
+            PROWS.append((dict(jc, run=what), pr[0], pr[1], pm))
         term, want = R.pool_tie_row(o, files[url], faults.get(url, {}), fin)
         rows.append((dict(jc, run=what), term, want,
                      {"cleaned": fin is not None, "counted": bool(o.get("pool_err") or o.get("pool_miss")),
@@ -216,6 +225,25 @@ def run(rep: C.Report):
     mism, errors = C.run_mismatch_shards(rep.prop, "meta", mheader, "m_meta", "eq_pool", [(a, b) for _, a, b, _ in mrows], shard=25)
     C.tie_verdict(rep, "meta", mism, errors, [c for c, _, _, _ in mrows], found, header=mheader, fn="m_meta",
                   coq_inputs=[a for _, a, _, _ in mrows])
+    # which stored file every index was read from, and the queue built from what was read
+    pheader = R.PARSED_HEADER + R.PARSED_DEFS
+    rep.count("parsed_tie.stages_not_observed", len(PSKIPPED))
+    if PSKIPPED and not found and len(PSKIPPED) > len(PROWS):
+        rep.violation(f"correspondence parsed: {len(PSKIPPED)} pool stages ran but what the parsers read could not be "
+                      f"observed ({PSKIPPED[0]}): mirror_is_function_of_upstream_parsed is not tied to these runs",
+                      {"kind": "correspondence-error", "tie": "parsed", "theorem": "mirror_is_function_of_upstream_parsed",
+                       "unobserved": [list(map(str, u)) for u in PSKIPPED[:5]]},
+                      tags={"kind": "tie-error", "tie": "parsed"}, no_failing_input=True)
+    for _, _, _, m in PROWS:
+        rep.count("parsed_tie.runs")
+        rep.count("parsed_tie.indices", m["bases"])
+        rep.count("parsed_tie.queued_files", m["queued"])
+        rep.count("parsed_tie.stale_candidates_removed_before_parsing", m["stale_candidates"])
+        rep.count("parsed_tie.indices_with_several_stored_variants", m["several_variants_stored"])
+        rep.count("parsed_tie.twins_in_queue", m["twins"])
+    mism, errors = C.run_mismatch_shards(rep.prop, "parsed", pheader, "m_parsed", "eq_parsed", [(a, b) for _, a, b, _ in PROWS], shard=20)
+    C.tie_verdict(rep, "parsed", mism, errors, [c for c, _, _, _ in PROWS], found, header=pheader, fn="m_parsed",
+                  coq_inputs=[a for _, a, _, _ in PROWS])
     C.proof_verdict(rep, found)
 
 
